@@ -1249,6 +1249,34 @@ fn main() {
         }
     }
 
+    // ---- stage F: batch sizes. Every batch length 1..=max_batch (keys cycling through the key set) through both
+    // apis, on a 4-node ring with rf 2 (owners are a strict subset) for a sender that owns some keys and for one that
+    // is not a member: a cap, a chunking or a pre-sized buffer in the queueing path shows at its boundary length.
+    let max_batch = num("--max-batch", if thorough { 4200 } else { 1100 }) as usize;
+    let size_items: Vec<(usize, u64)> = (1..=max_batch).flat_map(|l| [(l, 1u64), (l, 9u64)]).collect();
+    let res = par::par_map(&size_items, |_, (l, sender)| {
+        let mut acc = Acc::default();
+        let mem: Vec<u64> = vec![1, 2, 3, 4];
+        let c = Cfg { rf: 2, v: 16 };
+        let b: Vec<&str> = (0..*l).map(|i| keys[i % keys.len()].as_str()).collect();
+        let r = catch_unwind(AssertUnwindSafe(|| {
+            let mut env = build_env("new", &mem, c, *sender);
+            let mut tsets = BTreeSet::new();
+            run_batches(&mut env, &mem, &[], std::slice::from_ref(&b), &mut acc, &mut tsets);
+        }));
+        if let Err(p) = r {
+            let e = format!("routing a batch of {l} deltas panicked: {}", vh::panic_text(&p));
+            acc.hit("route panic on a large batch".into(), || (e, json!({"check": "route", "ctor": "new", "api": "queue_deltas", "members": mem, "rf": 2, "vnodes": 16, "sender": sender, "dyn": [], "batch": b})));
+        }
+        acc
+    });
+    let mut size_evals = 0u64;
+    for a in res {
+        size_evals += a.evals;
+        total.merge(a);
+    }
+    let route_evals = route_evals + size_evals;
+
     // ---- report (sequential, deterministic order)
     let mut by_sig: BTreeMap<String, u64> = BTreeMap::new();
     for (sig, (count, detail, replay)) in &total.find {
@@ -1295,6 +1323,7 @@ fn main() {
         "distinct_nontrivial": placement_nontrivial_distinct + route_nontrivial,
         "rule": format!("placement cases = (membership set within {{1..{universe}}}, rf, vnodes, key), each evaluated once per join order (HashRing::new) and once per transition of the add/remove history closure; a placement case is non-trivial when the set has >= 2 members and rf < n (the list is a strict selection). Routing cases = (router constructor, membership set, rf, vnodes, sender, optional one-node ring change, api route_deltas|queue_deltas, batch) with batches = empty, every single key, every 2- and 3-sequence over the first {small} keys, the whole key set; non-trivial when some delta's owner set minus the sender is neither empty nor all peers. distinct_nontrivial = distinct non-trivial placement cases + non-trivial routing cases (all distinct by construction)."),
         "exhaustive": exhaustive,
+        "batch_lengths": format!("every length 1..={max_batch} x sender in {{member 1, outsider 9}} x both apis on members [1,2,3,4] rf=2 vnodes=16 ({size_evals} cases)"),
         "universe_nodes": universe,
         "membership_sets": nmask - 1,
         "join_orders": n_orders,
